@@ -410,17 +410,28 @@ pub fn build_frame(spec: &FrameSpec) -> Result<Frame, HarnessError> {
     Ok(Frame { spec: spec.clone(), bytes, data, info, dict, names_dict })
 }
 
-/// global cache of built frames keyed by the spec's JSON; caching never changes a result (pure function of spec)
+/// keys of the fixed pool's specs (registered by `pool_spec`): those frames stay cached for the life of the process;
+/// per-run ("fresh") frames go through a small secondary cache that is simply cleared when full. (With one cache for
+/// both, the thorough tier's 4 000-frame pool plus a trickle of fresh frames kept overflowing it, and the pool - level-19
+/// compressions included - was rebuilt every few hundred runs.)
+fn pool_keys() -> &'static Mutex<std::collections::HashSet<String>> {
+    static K: OnceLock<Mutex<std::collections::HashSet<String>>> = OnceLock::new();
+    K.get_or_init(|| Mutex::new(std::collections::HashSet::new()))
+}
+
+/// global caches of built frames keyed by the spec's JSON; caching never changes a result (pure function of spec)
 pub fn get_frame(spec: &FrameSpec) -> Result<Arc<Frame>, HarnessError> {
-    static CACHE: OnceLock<Mutex<HashMap<String, Arc<Frame>>>> = OnceLock::new();
+    static POOL: OnceLock<Mutex<HashMap<String, Arc<Frame>>>> = OnceLock::new();
+    static FRESH: OnceLock<Mutex<HashMap<String, Arc<Frame>>>> = OnceLock::new();
     let key = serde_json::to_string(spec).unwrap();
-    let cache = CACHE.get_or_init(|| Mutex::new(HashMap::new()));
+    let pooled = pool_keys().lock().unwrap().contains(&key);
+    let cache = if pooled { POOL.get_or_init(|| Mutex::new(HashMap::new())) } else { FRESH.get_or_init(|| Mutex::new(HashMap::new())) };
     if let Some(f) = cache.lock().unwrap().get(&key) {
         return Ok(f.clone());
     }
     let f = Arc::new(build_frame(spec)?);
     let mut g = cache.lock().unwrap();
-    if g.len() > 4096 {
+    if !pooled && g.len() > 2048 {
         g.clear();
     }
     g.insert(key, f.clone());
@@ -508,7 +519,13 @@ pub fn gen_frame_spec(r: &mut Rng, p: &GenProfile) -> FrameSpec {
 /// A fixed pool: spec k is a pure function of k (independent of VERIF_SEED), so pool frames are built once and shared.
 pub fn pool_spec(k: u64, p: &GenProfile) -> FrameSpec {
     let mut r = Rng::new(crate::rng::splitmix64(0x5EED_F00D ^ k.wrapping_mul(0x9E37_79B9)));
-    gen_frame_spec(&mut r, p)
+    let spec = gen_frame_spec(&mut r, p);
+    let key = serde_json::to_string(&spec).unwrap();
+    let mut g = pool_keys().lock().unwrap();
+    if !g.contains(&key) {
+        g.insert(key);
+    }
+    spec
 }
 
 /// Draw a workload frame for a run: mostly from the fixed pool (cheap, cached), sometimes fresh from the run's PRNG.
